@@ -16,6 +16,10 @@ Import ListNotations.
 Open Scope string_scope. Open Scope list_scope.
 
 (** ** 1. tokens of an item from its erased IR, docs and derive tokens *)
+Lemma tuple_or_array_erase t :
+  WellFormed.tuple_or_array (erase_tpath t) = WellFormed.tuple_or_array t.
+Proof. destruct t; reflexivity. Qed.
+
 Lemma tp_tokens_erase alloc t : tp_tokens alloc (erase_tpath t) = tp_tokens alloc t.
 Proof.
   induction t as [p|ptoks params IH|o IH|len o IH|els IH|p|i f cp IH|o st b IHo IHs]
@@ -26,7 +30,7 @@ Proof.
   - rewrite !tp_tokens_TArray, IH. reflexivity.
   - rewrite !tp_tokens_TTuple, (mapM_map_same _ _ _ IH). reflexivity.
   - reflexivity.
-  - rewrite !tp_tokens_TCompact, IH. reflexivity.
+  - rewrite !tp_tokens_TCompact, IH, tuple_or_array_erase. reflexivity.
   - rewrite !tp_tokens_TBitVec, IHo, IHs. reflexivity.
 Qed.
 
